@@ -160,21 +160,21 @@ pub fn gen(tier: &str, seed: u64, out: &mut dyn FnMut(Value)) {
     // (1) quantifier-heavy rule sets with erroring operands: the order-dependence the property names
     let cfg = Cfg { quant_prob: (2, 3), ..Cfg::default() };
     let mut k = 0u64;
-    let n1 = if thorough { 6000 } else { 500 };
+    let n1 = if thorough { 30000 } else { 2000 };
     gen_random(&mut rng, &cfg, n1, "quantifiers over operands some of which error", (1, 4), &mut |c| {
         k += 1;
         wrap(c, if k % 50 == 0 { procs } else { 0 }, out)
     });
     // (2) dependency-heavy sets (HashSet of dependencies drives the evaluation order)
     let cfg2 = Cfg { max_rules: 8, dep_prob: (2, 3), n_events: 6, ..Cfg::default() };
-    gen_random(&mut rng, &cfg2, if thorough { 4000 } else { 300 }, "dependency heavy", (1, 6), &mut |c| {
+    gen_random(&mut rng, &cfg2, if thorough { 20000 } else { 1200 }, "dependency heavy", (1, 6), &mut |c| {
         k += 1;
         wrap(c, if k % 50 == 0 { procs } else { 0 }, out)
     });
     // (3) templates whose texts mention other templates / themselves, used in matches and conditions
     const TN: [&str; 5] = ["a", "b", "ab", "c", "a}}b"];
     const TT: [&str; 9] = ["1", "{{b}}", "{{a}}", "x{{ab}}y", "", "{{c}}{{a}}", "2", "}}", "{{"];
-    let n3 = if thorough { 6000 } else { 600 };
+    let n3 = if thorough { 30000 } else { 2400 };
     for i in 0..n3 {
         let ndocs = 1 + rng.below(2);
         let mut docs = vec![];
